@@ -369,14 +369,12 @@ func runC04(p *Prog, r *Result) {
 									if condReads[o] == nil {
 										condReads[o] = map[string]bool{}
 									}
-									ast.Inspect(pfd.Body, func(m ast.Node) bool {
-										if s2, ok := m.(*ast.SelectorExpr); ok {
-											if id2, ok := ast.Unparen(s2.X).(*ast.Ident); ok && info.ObjectOf(id2) == recv {
-												condReads[o][s2.Sel.Name] = true
-											}
-										}
-										return true
-									})
+									// a field counts as tested by the predicate only when every way of answering true looked at it:
+									// it is mentioned by every return statement that is not the constant false, or by a condition
+									// on every path to such a return
+									for fld := range predicateTests(info, pfd, recv) {
+										condReads[o][fld] = true
+									}
 								}
 							}
 						}
@@ -643,6 +641,71 @@ var c04FieldExceptions = map[string]string{
 	"Word.Parts@inlineSimpleParams":  "the guard len(w.Parts) == 1 and the assertion on w.Parts[0] look at the whole slice; reported as a read of Parts through indexing",
 }
 
+// predicateTests: the receiver fields that a boolean method tests on every path that can answer true.
+func predicateTests(info *types.Info, fd *ast.FuncDecl, recv types.Object) map[string]bool {
+	g := NewFGraph(info, fd.Body, nil)
+	mentions := func(n ast.Node) map[string]bool {
+		out := map[string]bool{}
+		if n == nil {
+			return out
+		}
+		ast.Inspect(n, func(m ast.Node) bool {
+			if se, ok := m.(*ast.SelectorExpr); ok {
+				if id, ok := ast.Unparen(se.X).(*ast.Ident); ok && info.ObjectOf(id) == recv {
+					out[se.Sel.Name] = true
+				}
+			}
+			return true
+		})
+		return out
+	}
+	var result map[string]bool
+	nRet := 0
+	for _, b := range g.Blocks {
+		for _, n := range b.Nodes {
+			rs, ok := n.(*ast.ReturnStmt)
+			if !ok || len(rs.Results) != 1 {
+				continue
+			}
+			if id, ok := ast.Unparen(rs.Results[0]).(*ast.Ident); ok && id.Name == "false" {
+				continue
+			}
+			nRet++
+			here := mentions(rs.Results[0])
+			// plus fields mentioned by conditions every path to this return passes
+			all := map[string]bool{}
+			for _, b2 := range g.Blocks {
+				for _, e := range b2.Succs {
+					for f := range mentions(e.Cond) {
+						all[f] = true
+					}
+				}
+			}
+			for f := range all {
+				if here[f] {
+					continue
+				}
+				if underEdges(g, b, func(e *FEdge) bool { return e.Cond != nil && mentions(e.Cond)[f] }) {
+					here[f] = true
+				}
+			}
+			if result == nil {
+				result = here
+			} else {
+				for f := range result {
+					if !here[f] {
+						delete(result, f)
+					}
+				}
+			}
+		}
+	}
+	if nRet == 0 || result == nil {
+		return map[string]bool{}
+	}
+	return result
+}
+
 // keptElsewhere: the function also stores l.field into a literal of the same node type that it returns. A field of
 // the same name on another node type does not count: `Dollar` on a DblQuoted ($"…", locale translation) and on a
 // SglQuoted ($'…', escape sequences) mean different things, so carrying it across is not preservation.
@@ -710,6 +773,8 @@ func reachableFromAvoidingBlock(g *FGraph, b *FBlock, i int, head *FBlock, stop 
 }
 
 var c04Controls = []Control{
+	{Name: "simple-predicate-short-cut", Rule: "R04c", WantKey: "inlineSimpleParams#drops pe", File: "syntax/nodes.go",
+		Mutate: ctlReplaceAnywhere("func (p *ParamExp) simple() bool {\n", "func (p *ParamExp) simple() bool {\n\tif p.Short {\n\t\treturn true\n\t}\n")},
 	{Name: "dollar-string-requoted", Rule: "R04c", WantKey: "simplifyWord#replaces dq", File: "syntax/simplify.go",
 		Mutate: ctlReplace("simplifier.simplifyWord", "dq == nil || dq.Dollar || len(dq.Parts) != 1", "dq == nil || len(dq.Parts) != 1", 0)},
 	{Name: "printer-loses-single-quote-case", Rule: "R04b", WantKey: "SglQuoted#built by the simplifier", File: "syntax/printer.go",
